@@ -24,6 +24,27 @@ func init() {
 			}
 		}()
 		switch entry {
+		case "slice-int8", "slice-uint8":
+			// bs = 4-byte big-endian length argument + the reader's content; the target slice holds other content
+			n := int32(uint32(bs[0])<<24 | uint32(bs[1])<<16 | uint32(bs[2])<<8 | uint32(bs[3]))
+			r := codec.NewReader(append([]byte(nil), bs[4:]...))
+			var got []byte
+			var err error
+			if entry == "slice-int8" {
+				t := []int8{-7, 7, -7, 7, -7}
+				err = r.ReadSliceInt8(&t, n, true)
+				for _, x := range t {
+					got = append(got, byte(x))
+				}
+			} else {
+				t := []uint8{7, 249, 7, 249, 7}
+				err = r.ReadSliceUint8(&t, n, true)
+				got = append(got, t...)
+			}
+			if err != nil {
+				return "SlErr", err.Error()
+			}
+			return fmt.Sprintf("(SlVal %s %d)", hx(got), r.VerifRemaining()), ""
 		case "tup":
 			u := tup.NewUniAttribute()
 			if err := u.Decode(codec.NewReader(bs)); err != nil {
@@ -128,6 +149,24 @@ func c05Gen(tier string, rng *rand.Rand) []mCase {
 				cs = append(cs, mkS(b, "hostile-strlen", "STRING1 length := 255", nb))
 			}
 		}
+	}
+	// a RECURSIVE struct type (the test IDL's Rec { 0 require int id; 1 optional vector<Rec> kids; ... }): every nesting
+	// level announces as many elements as bytes are left at that level - each count passes the generated check, together
+	// they add up quadratically (known finding decode/over-allocation/recursive-type)
+	for _, b := range bases {
+		if b.e.name != "verifidl.Rec" {
+			continue
+		}
+		const L = 4000
+		var bs []byte
+		for len(bs)+8 <= L { // 0c: id = 0; 19: kids LIST; 02 nnnnnnnn: count; 0a: first element StructBegin
+			rem := L - len(bs) - 7
+			bs = append(bs, 0x0c, 0x19, 0x02, byte(rem>>24), byte(rem>>16), byte(rem>>8), byte(rem), 0x0a)
+		}
+		c := mkS(b, "nested-counts", fmt.Sprintf("%d levels of (id = 0; kids: LIST of as many elements as bytes are left; first element ...)", L/8), bs)
+		c.sigHint = "recursive-type"
+		cs = append(cs, c)
+		break
 	}
 	// nesting bombs and random bytes, through a few struct types
 	var pkt []base
